@@ -108,6 +108,13 @@ def cascadeApply (fs : List (ZF α)) (xs : List α) : List α := fs.foldl (fun d
 def parallelApply (fs : List (ZF α)) (xs : List α) : List α :=
   fs.foldl (fun acc f => addSig acc (apply f xs)) (xs.map fun _ => 0)
 
+/-- "the product of the parts": `reduce(operator.mul, filters)` with the filter operator `*`
+(the sum of the parts, `reduce(operator.add, filters)`, is `sumFilters` of the model, which
+`ParallelFilter.numpoly` itself uses) -/
+def prodFilters : List (ZF α) → Except PyErr (ZF α)
+  | [] => .error .type
+  | f :: t => t.foldlM mul f
+
 /-- product / sum of the parts as rational functions -/
 def rProd (fs : List (ZF α)) : ZF α := fs.foldl rMul (rScalar 1)
 def rSum (fs : List (ZF α)) : ZF α := fs.foldl rAdd (rScalar 0)
